@@ -34,7 +34,14 @@ impl<'de> serde::Deserializer<'de> for ArrayDeserializer {
     {
         if serde_spanned::__unstable::is_spanned(name, fields) {
             if let Some(span) = self.span.clone() {
-                return visitor.visit_map(super::SpannedDeserializer::new(self, span));
+                return visitor
+                    .visit_map(super::SpannedDeserializer::new(self, span.clone()))
+                    .map_err(|mut e: Self::Error| {
+                        if e.span().is_none() {
+                            e.set_span(Some(span));
+                        }
+                        e
+                    });
             }
         }
 
